@@ -356,6 +356,16 @@ func childTarget(args []string) error {
 	for _, n := range ws {
 		wsIDs = append(wsIDs, n.ID)
 	}
+	// every id that was on disk BEFORE the commit keeps its name in the recovering process too: cleanup may have deleted
+	// a removed node's handle and blob before the crash, and the recovery names them again (finalizeCommit payload)
+	for _, hs := range pre.Handles {
+		for _, h := range hs {
+			wsIDs = append(wsIDs, h.LogicalID, h.PhysicalIDA, h.PhysicalIDB)
+		}
+	}
+	for _, ids := range pre.BlobFiles {
+		wsIDs = append(wsIDs, ids...)
+	}
 	dump := func(completed bool, cerr error) {
 		var tr []string
 		for _, l := range sc.Calls {
